@@ -53,6 +53,13 @@ TABLE = {
     "c14_outspec_non_condition_silent.diff": ("contracts.c14d", "_infer_output_spec_type", "NumberLiteral"),
     "c13_type_access_non_signal.diff": ("contracts.c14d", "resolve_signal_type_access", "x.type"),
     "c01_simplify_keeps_inner_type.diff": ("contracts.c14d", "_try_simplify_signal_projection", "1 projection"),
+    "c14_bundle_duplicate_by_placeholder.diff": ("contracts.c02", "lower_bundle_literal", "SAME signal"),
+    "c14_bundle_duplicate_not_reported.diff": ("contracts.c02", "lower_bundle_literal", "SAME signal"),
+    "c20_bundle_from_call_not_declared.diff": ("contracts.c16b", "lower_decl_stmt", "function call"),
+    "c03_constant_enable_bare_integer.diff": ("contracts.c03", "_lower_standard_write", None),
+    "c03_enable_not_exported.diff": ("box", "contracts.c13:analyze_c:analyze_arg_sets", None),
+    "c04_folded_cell_keeps_enable_constant.diff": ("box", "contracts.c04:cleanup_gates:cleanup_arg_sets", None),
+    "c20_bundle_alias_not_collected.diff": ("e2e", 'Signal x = ("signal-A", 6);\nSignal y = ("signal-B", 2);\nBundle t = { x, y };\nBundle u = t * 2;\nBundle r = u;\nBundle p = t;\n', None),
     "c14_write_keyed_by_scope.diff": ("contracts.c14c", "infer_expr_type", "m.write(v), v: SignalValue"),
     "c14_write_loop_needs_three.diff": ("contracts.c14c", "infer_expr_type", "m.write(v), v: SignalValue"),
     "c14_write_loop_inner_cell_refused.diff": ("contracts.c14c", "infer_expr_type", "m.write(v), v: SignalValue"),
@@ -272,7 +279,7 @@ bad = 0
 for opt in (True, False):
     pv = e2e.judge(sys.argv[2], optimize=opt)
     print(pv.status, [(o.name, o.status) for o in pv.outputs])
-    bad += sum(1 for o in pv.outputs if o.status in ("mismatch", "crosstalk")) + (1 if pv.status not in ("judged",) else 0)
+    bad += sum(1 for o in pv.outputs if o.status in ("mismatch", "crosstalk", "missing")) + (1 if pv.status not in ("judged",) else 0)
 print("RESULT", 1, 1 if bad else 0)
 ''' % str(VERIF)
 GUARD_RUNNER = r'''
